@@ -78,6 +78,7 @@ class Interp:
     def __init__(self, h):
         self.h = h
         self.bundles = {"Diff": h.Diff}
+        self.ibtypes = {}
         self.exts = {}
         self.mods = {}
         self.fault_counter = {}
@@ -227,8 +228,15 @@ class Interp:
             for port, x in conns.items():
                 arr.connect(port, self.expr(env, x))
         elif kind == "pair":
-            _, _, iname, target, conns = op
-            p = h.Pair(self.target(target))
+            iname, target, conns = op[2], op[3], op[4]
+            bid = op[5] if len(op) > 5 else "Diff"
+            if bid == "Diff":
+                ptype = h.Pair
+            else:
+                if bid not in self.ibtypes:
+                    self.ibtypes[bid] = h.InstanceBundleType(name=f"IB{bid}", bundle=self.bundles[bid])
+                ptype = self.ibtypes[bid]
+            p = ptype(self.target(target))
             self._put(env, iname, p)
             for port, x in conns.items():
                 p.connect(port, self.expr(env, x))
